@@ -476,9 +476,99 @@ def chunks(lst, n):
         yield lst[i:i + n]
 
 
+# the reserved dunder names as the pinned tree lists them (a later tree may reserve more, never fewer)
+FROZEN_RESERVED = ['__bool__', '__call__', '__class__', '__cmp__', '__coerce__', '__copy__', '__deepcopy__', '__del__', '__delattr__', '__dir__', '__enter__', '__eq__',
+                   '__exit__', '__format__', '__ge__', '__getattr__', '__getattribute__', '__getinitargs__', '__getnewargs__', '__getstate__', '__gt__', '__hasattr__',
+                   '__hash__', '__init__', '__init_subclass__', '__instancecheck__', '__le__', '__lt__', '__module__', '__ne__', '__new__', '__nonzero__', '__reduce__',
+                   '__reduce_ex__', '__repr__', '__setattr__', '__setstate__', '__sizeof__', '__str__', '__subclasscheck__', '__subclasshook__', '__weakref__']
+# those of them a class can define as ordinary logging methods without Python itself calling them during the check
+DEFINABLE = ['__init_subclass__', '__copy__', '__deepcopy__', '__getinitargs__', '__getnewargs__', '__cmp__', '__coerce__', '__nonzero__', '__hasattr__', '__enter__',
+             '__exit__', '__format__', '__subclasshook__', '__call__', '__reduce_ex__', '__sizeof__']
+
+
+def run_reserved(unit):
+    """a class exposed as a whole that defines reserved dunder names itself (a plugin base class with __init_subclass__, a context manager,
+    ...): none of them is served or advertised, whichever request kind names it"""
+    from vf.syncworld import SyncWorld
+    from Pyro5 import client, server, errors, protocol, core
+    st = Stats()
+    seen = set()
+
+    def V(fp, what, case):
+        fp = "C02|" + fp
+        if fp not in seen:
+            seen.add(fp)
+            st.violations.append({"fingerprint": fp, "what": "%s [case=%s]" % (what, show(case, 200)), "replay": {"reserved": True}})
+    for n in FROZEN_RESERVED:
+        st.points += 1
+        if not server.is_private_attribute(n):
+            V("reserved-dunder-no-longer-private|%s" % n, "is_private_attribute(%r) is False" % n, (n,))
+    log = []
+    ns = {}
+    for n in DEFINABLE:
+        def mk(n):
+            def f(*a, **k):
+                log.append(n)
+                return "ran-" + n
+            f.__name__ = n
+            return f
+        ns[n] = classmethod(mk(n)) if n in ("__init_subclass__", "__subclasshook__") else mk(n)
+    ns["ctl"] = lambda self: "ctl"
+    gc.disable()
+    w = SyncWorld(SERIALIZER="serpent")
+    try:
+        cls = server.expose(type("Plugin", (object,), ns))
+        d = w.daemon()
+        d.register(cls(), "target")
+        del log[:]
+        dproxy = client.Proxy("PYRO:%s@h:1" % core.DAEMON_NAME)
+        md = dproxy._pyroInvoke("get_metadata", ["target"], {})
+        adv = set(md["methods"]) | set(md["attrs"]) | set(md["oneway"])
+        if adv != {"ctl"}:
+            V("metadata-advertises-unservable|reserved-dunder|%s" % sorted(adv - {"ctl"})[:1], "advertised %r" % sorted(adv), ("Plugin",))
+        proxy = client.Proxy("PYRO:target@h:1")
+        for n in FROZEN_RESERVED:
+            for req in ("call", "call_kw", "oneway", "batch", "getattr", "setattr"):
+                st.executions += 1
+                del log[:]
+                if proxy._pyroConnection is None:
+                    proxy._pyroBind()
+                try:
+                    if req == "call":
+                        r = proxy._pyroInvoke(n, (), {})
+                    elif req == "call_kw":
+                        r = proxy._pyroInvoke(n, (), {"x": 1})
+                    elif req == "oneway":
+                        r = proxy._pyroInvoke(n, (), {}, flags=protocol.FLAGS_ONEWAY)
+                    elif req == "batch":
+                        r = proxy._pyroInvokeBatch([(n, (), {})])
+                        if r and isinstance(r[0], core._ExceptionWrapper):
+                            raise r[0].exception
+                    elif req == "getattr":
+                        r = proxy._pyroInvoke("__getattr__", (n,), None)
+                    else:
+                        r = proxy._pyroInvoke("__setattr__", (n, "NEW"), None)
+                    outcome = ("ok", r)
+                except Exception as x:
+                    outcome = ("exc", x)
+                if log:
+                    V("unexposed-code-ran|reserved-dunder|%s|%s" % (n, req), "request %s(%r) ran %r" % (req, n, log[:3]), (n, req))
+                elif outcome[0] == "ok" and req != "oneway":
+                    V("request-not-refused|reserved-dunder|%s|%s" % (n, req), "request %s(%r) returned %s" % (req, n, show(outcome[1])), (n, req))
+        st.states.add("reserved-dunders")
+        st.outcomes["reserved:refused"] = 1
+    finally:
+        w.close()
+        gc.enable()
+        gc.collect()
+    return st
+
+
 def run(ctx):
     sp = specs(ctx.quick)
     total = Stats()
+    for st in ctx.pmap(run_reserved, [0]):
+        total.merge(st)
     for st in ctx.pmap(run_config, [(c, ctx.quick) for c in chunks(sp, max(1, len(sp) // 64))]):
         total.merge(st)
     for st in ctx.pmap(run_flaky, [0]):
@@ -507,6 +597,9 @@ def run(ctx):
 
 
 def replay(ctx, payload):
+    if payload.get("replay", {}).get("reserved"):
+        st = run_reserved(0)
+        return {"violations": [v for v in st.violations if v["fingerprint"] == payload["fingerprint"]]}
     if "sched_cfg" in payload["replay"]:
         from vf.explore import Chooser
         res = make_sched_run(payload["replay"]["sched_cfg"])(Chooser([tuple(c) for c in payload["choices"]]))
